@@ -382,8 +382,8 @@ func c13(run *core.Run, replay string) {
 			shs = []string{"text", "dna", "random", "elfx86", "runs"}
 		}
 		for _, sh := range shs {
-			for _, j := range []uint{1, 4} {
-				if j == 4 && t != "BWT" {
+			for _, j := range []uint{1, 3, 4, 5, 6, 7} {
+				if j != 1 && (t != "BWT" || sh != "text") {
 					continue
 				}
 				add(trCase{T: t, Entropy: "ANS0", Shape: sh, Size: bigN, Seed: run.Seed, Jobs: j})
